@@ -1,7 +1,7 @@
 """C06 - a path resolves only to the Sid that owns it, and never makes Sid() fail"""
 from ..rules import exc, forward, pathops, config, mutation
 
-DECIDES = ("totality of Sid(path=, config=) for configured configurations (R-EXC: resolva's duplicate-placeholder exception is caught, nothing else escapes); 'typed => path(c) == p' by shape: typed data is returned only after dict_to_path(data, type, config) was compared with the given path (R-REFORMAT), which discharges the unescaped literals (R-LITERAL) and resolva's '$' anchor; the configuration is threaded unchanged (R-FWD). Also: the field dictionary of a Sid built from a path is never handed out uncopied nor through a memoised accessor (R-ESC). First template in configuration order, nothing sorted out before the resolver is asked, the owner type handed on to the Sid (R-PATHFIRST).")
+DECIDES = ("totality of Sid(path=, config=) for configured configurations (R-EXC: resolva's duplicate-placeholder exception is caught, nothing else escapes); 'typed => path(c) == p' by shape: typed data is returned only after dict_to_path(data, type, config) was compared with the given path (R-REFORMAT), which discharges the unescaped literals (R-LITERAL) and resolva's '$' anchor; the configuration is threaded unchanged (R-FWD). Also: the field dictionary of a Sid built from a path is never handed out uncopied nor through a memoised accessor (R-ESC). First template in configuration order, nothing sorted out before the resolver is asked, the owner type handed on to the Sid (R-PATHFIRST). No stray module-level `name` in a path configuration (R-CONFSHADOW).")
 DOES_NOT_DECIDE = "nothing of the statement's second clause; which paths conform (regular-expression evaluation)"
 
 
@@ -14,4 +14,5 @@ def rules(ctx, tier):
         lambda: config.rule_mapinj(ctx),
         lambda: forward.rule_fwd_config(ctx),
         lambda: mutation.rule_esc(ctx),
+        lambda: config.rule_confshadow(ctx),
     ]
